@@ -850,7 +850,8 @@ struct LcSim : Harness {
       }
       return;
     }
-    if (e.cls != "crash" && e.cls != "hang") return;
+    bool wild_store = e.cls == "code_write_outside_window" && e.sig == "jit_or_harness";  // a store executed by generated (or misdirected) code, not by the library
+    if (e.cls != "crash" && e.cls != "hang" && !wild_store) return;
     bool was_hang = e.cls == "hang"; int tmo = was_hang ? 12 : hang_seconds();
     {  // known finding: lazy-bb thunks / branch patches reach only +-2GB.  Same history with all code packed together?
       bool bb = false; for (auto &op : plan.at("ops").a) if (op.k == Json::Arr && op.size() > 1 && op[0].s == "link" && op[1].num() % 5 == 4) bb = true;
@@ -862,6 +863,7 @@ struct LcSim : Harness {
         if (c.status == "ok") { e.cls = "lazybb_rel32_far_placement"; e.detail = "the same history with all code holders packed within 2GB runs correctly: " + e.detail; return; }
       }
     }
+    if (wild_store) return;
     bool uses_bb = false; for (auto &op : plan.at("ops").a) if (op.k == Json::Arr && op.size() > 1 && op[0].s == "link" && op[1].num() % 5 == 4) uses_bb = true;
     for (int level = 0; level < 4; level++) {
       Json p = plan; Json ops = Json::array(); size_t nm = plan.at("prog").at("mods").size();
